@@ -46,17 +46,16 @@ Proof.
   - inversion H; subst. destruct Hx.
 Qed.
 
-Lemma bmca_frames i i' o : inst_inv i -> bmca i = Ok (i', o) -> frames_known i o.
+Lemma bmca_no_frames i i' o : inst_inv i -> bmca i = Ok (i', o) -> forall q, sent_frames (obs_of_port o q) = [].
 Proof.
-  intros Hi Hb q x Hx. exfalso.
-  pose proof (bmca_role i i' o Hi Hb q) as Hr. unfold role_port in Hr. apply andb_true_iff in Hr as [_ _].
+  intros Hi Hb q.
   destruct (bmca_ok i Hi) as (i2 & o2 & Hb2 & _ & _ & _ & _ & bps1 & Ho & Hq).
-  rewrite Hb in Hb2. injection Hb2 as E1 E2. subst i2 o2. rewrite Ho in Hx.
-  rewrite !obs_of_port_app in Hx.
+  rewrite Hb in Hb2. injection Hb2 as E1 E2. subst i2 o2. rewrite Ho.
+  rewrite !obs_of_port_app.
   assert (Hw : obs_of_port [(-1, wr_lock)] q = []).
   { unfold obs_of_port. cbn [filter fst]. destruct (-1 =? Z.of_nat q) eqn:E; [lia|reflexivity]. }
-  rewrite Hw in Hx. cbn [app] in Hx. rewrite !obs_of_port_tag_ports in Hx. rewrite Nat.sub_0_r in Hx. cbn [Nat.leb] in Hx.
-  destruct (nth_error bps1 q) as [b|] eqn:Eb; [|destruct Hx].
+  rewrite Hw. cbn [app]. rewrite !obs_of_port_tag_ports. rewrite Nat.sub_0_r. cbn [Nat.leb].
+  destruct (nth_error bps1 q) as [b|] eqn:Eb; [|reflexivity].
   assert (Hbq : bquiet b).
   { clear - Hq Eb. revert q Eb. induction Hq as [|y z ly lz Hyz _ IH]; intros [|q] Eb; cbn in *; try discriminate.
     - inversion Eb; subst. apply Hyz.
@@ -65,10 +64,13 @@ Proof.
   assert (Hns : forall l sl, forallb (bobs_ok sl) l = true -> sent_frames (filter (fun y => negb (is_lock y)) l) = []).
   { intros l sl Hl. rewrite sent_frames_filter. unfold sent_frames. induction l as [|y l IH]; cbn [flat_map]; [reflexivity|].
     cbn [forallb] in Hl. apply andb_true_iff in Hl as [Hy Hl]. rewrite (IH Hl). destruct y; try reflexivity; discriminate. }
-  unfold sent_frames in Hx. rewrite flat_map_app in Hx. fold (sent_frames (filter (fun y => negb (is_lock y)) (bp_side b))) in Hx.
-  fold (sent_frames (filter (fun y => negb (is_lock y)) (bp_pending b))) in Hx.
-  rewrite (Hns _ _ Q1), (Hns _ _ Q2) in Hx. destruct Hx.
+  unfold sent_frames. rewrite flat_map_app. fold (sent_frames (filter (fun y => negb (is_lock y)) (bp_side b))).
+  fold (sent_frames (filter (fun y => negb (is_lock y)) (bp_pending b))).
+  rewrite (Hns _ _ Q1), (Hns _ _ Q2). reflexivity.
 Qed.
+
+Lemma bmca_frames i i' o : inst_inv i -> bmca i = Ok (i', o) -> frames_known i o.
+Proof. intros Hi Hb q x Hx. rewrite (bmca_no_frames i i' o Hi Hb q) in Hx. destruct Hx. Qed.
 
 Lemma step_frames i e i' o :
   inst_inv i -> event_valid e -> step i e = Ok (i', o) -> frames_known i o.
